@@ -751,6 +751,86 @@ def classic_namespace_isolation(ctx):
             threading.excepthook = saved_hook
 
 
+class Job(object):
+    """a class that well-behaved clients hand to the service, which instantiates it through its proxy"""
+
+    def __init__(self, n):
+        self.n = n
+
+    def exposed_double(self):
+        return self.n * 2
+
+
+def class_descriptions_per_client(ctx):
+    """what one client tells the server about a class of its own (the description the server asks for in order to build the proxy
+    type) concerns that client's connection only: a client that describes a class falsely - same name, same id as the class the
+    well-behaved clients of the same process will send, but the method list of a plain object - and leaves must not change what
+    later clients get when they hand the server the real class."""
+    import logging
+    import threading
+    import rpyc
+    from rpyc.core import netref
+    from rpyc.core.protocol import Connection
+    from rpyc.lib import get_methods
+    from rpyc.utils.server import ThreadedServer, ThreadPoolServer
+
+    class Builder(rpyc.Service):
+        def exposed_build(self, cls, n):
+            return cls(n).exposed_double()
+
+    class LyingConnection(Connection):
+        def _handle_inspect(self, id_pack):
+            return tuple(get_methods(netref.LOCAL_ATTRS, object()))
+
+    class Liar(rpyc.VoidService):
+        _protocol = LyingConnection
+    for kind, cls, extra in (("threaded", ThreadedServer, {}), ("threadpool", ThreadPoolServer, {"nbThreads": 3, "requestBatchSize": 2})):
+        quiet = logging.getLogger("rv-c16-classdesc")
+        quiet.propagate = False
+        quiet.setLevel(logging.CRITICAL + 1)
+        srv = cls(Builder, hostname="127.0.0.1", port=0, auto_register=False, logger=quiet, **extra)
+        srv._listen()
+        saved_hook = threading.excepthook
+        threading.excepthook = lambda args: ctx.count("classdesc_server_thread_exceptions_%s" % getattr(args.exc_type, "__name__", "?"))
+        t = threading.Thread(target=srv.start, daemon=True, name="rv-classdesc-" + kind)
+        t.start()
+        wit = dict(family="class-descriptions-per-client", kind=kind)
+        conns = []
+        try:
+            liar = rpyc.connect("127.0.0.1", srv.port, service=Liar)
+            conns.append(liar)
+            try:
+                liar.root.build(Job, 1)
+                ctx.count("false_class_descriptions_accepted_for_the_liar_itself")
+            except Exception:
+                ctx.count("false_class_descriptions_hurt_only_the_liar")
+            liar.close()
+            for j in range(2):
+                good = rpyc.connect("127.0.0.1", srv.port)
+                conns.append(good)
+                try:
+                    v = good.root.build(Job, 3 + j)
+                except Exception as e:
+                    ctx.violation("C16/%s/class-description-of-another-client-used" % kind, "after a client that described its class falsely had come and gone, a "
+                                  "well-behaved client handing the server the real class got %r instead of %d" % (e, 2 * (3 + j)), wit)
+                    break
+                if v != 2 * (3 + j):
+                    ctx.violation("C16/%s/good-client-wrong-result" % kind, "build(Job, %d) returned %r" % (3 + j, v), wit)
+                ctx.count("good_clients_after_a_false_class_description")
+            ctx.case(("class-descriptions-per-client", kind), nontrivial=True)
+        except Exception as e:
+            ctx.violation("C16/classdesc/%s/aborted/%s" % (kind, type(e).__name__), "scenario aborted: %r" % (e,), wit)
+        finally:
+            for c in conns:
+                try:
+                    c.close()
+                except Exception:
+                    pass
+            srv.close()
+            t.join(10)
+            threading.excepthook = saved_hook
+
+
 def many_descriptors(ctx):
     """'any number of such clients': more than a thousand bad clients (a truncated frame each, then silence) stay connected to one
     threaded server, so that the descriptors of the clients accepted next have numbers beyond 1024 - where everything built on
@@ -822,6 +902,7 @@ def run(ctx):
     sc = rn.SharedCtx(ctx)
     if ctx.shard[0] == 0:
         classic_namespace_isolation(ctx)
+        class_descriptions_per_client(ctx)
         many_descriptors(ctx)
     configs = [(k, a) for k in SERVER_KINDS for a in (False, True)]
     if ctx.quick:
